@@ -17,4 +17,10 @@ TEXTS = {
  "C17": {"engine": "fjv life", "design_ref": "DESIGN.md §5 C17", "technique": "runtime monitoring: lock/lifecycle oracle with in-process and child-process openers, directory digests, /proc thread census, drop watchdog",
          "text": "Hundreds of seeded handle lifecycles across threads with second-open probes from the same and from a child process, version-marker fuzz over four directory states with before/after directory digests, and a failing-background-worker scenario whose drop is watched from outside the process.",
          "note": "Trusted base: flock semantics of the kernel, the directory digest (names, sizes, content up to the zero padding), /proc/self/task thread names. Reach bounded by the generated lifecycles."},
+ "C16": {"engine": "fjv opts", "design_ref": "DESIGN.md §5 C16", "technique": "runtime monitoring: round-trip oracle over generated option sets plus behavioural probes",
+         "text": "Thousands of generated option sets are created, reopened with decoy options and read back field by field and in stored form; benign sets are additionally probed behaviourally (rotation threshold, manual persist).",
+         "note": "Trusted base: the doc-hidden config fields and the H5 accessor (which calls the real encode_kvs). Values rejected at creation are not counted."},
+ "C18": {"engine": "fjv model", "design_ref": "DESIGN.md §5 C18", "technique": "runtime monitoring: reference model with per-key filter verdict states and filter invocation log",
+         "text": "Programs over assigned and unassigned keyspaces with a logging filter; three-valued per-key oracle (original / filtered / sticky) and exact model for unassigned keyspaces, with a strict in-effect check after major compaction at the end and after each reopen.",
+         "note": _model_note},
 }
